@@ -38,9 +38,36 @@ func (h *Heaper) heapGet(st *State, f Family) *Term {
 		return t
 	}
 	st.fams[f.Name] = f
+	fresh := !h.vc.declared["H0."+f.Name]
 	t := h.vc.declGlobal("H0."+f.Name, f.Sort)
+	if fresh {
+		h.closedness(t, f, "ctr0")
+	}
 	st.heap[f.Name] = t
 	return t
+}
+
+// closedness: in objects that exist when the array constant comes into being (refs <= ctr), every
+// stored reference points to an object that exists too (refs are never forged, allocation is monotone).
+func (h *Heaper) closedness(arr *Term, f Family, ctr string) {
+	if f.Leaf.T == nil {
+		return
+	}
+	isRef := false
+	switch kindOf(f.Leaf.T) {
+	case KPtr, KMap:
+		isRef = true
+	case KSlice:
+		isRef = strings.HasSuffix(f.Leaf.Path, ".arr")
+	}
+	if !isRef || f.Leaf.Sort != SInt {
+		return
+	}
+	if f.Root == RElem {
+		h.vc.assertGlobalOrLine(fmt.Sprintf("(forall ((r!c Int) (i!c (_ BitVec 64))) (! (=> (<= r!c %s) (and (<= 0 (select (select %s r!c) i!c)) (<= (select (select %s r!c) i!c) %s))) :pattern ((select (select %s r!c) i!c))))", ctr, arr.S, arr.S, ctr, arr.S), ctr == "ctr0")
+		return
+	}
+	h.vc.assertGlobalOrLine(fmt.Sprintf("(forall ((r!c Int)) (! (=> (<= r!c %s) (and (<= 0 (select %s r!c)) (<= (select %s r!c) %s))) :pattern ((select %s r!c))))", ctr, arr.S, arr.S, ctr, arr.S), ctr == "ctr0")
 }
 
 func (h *Heaper) heapSet(st *State, f Family, t *Term) {
